@@ -108,6 +108,15 @@ Theorem C48_raw_reads_back_chunked : forall o r c, Inv_req r -> send_chunked (rq
 Proof. exact raw_request_reads_back_chunked. Qed.
 Print Assumptions C48_raw_reads_back_chunked.
 
+(* exports do not change the flow: for every history of curl / httpie / raw exports of one flow, the flow afterwards is
+   the flow before, and each output is that exporter's output on the initial flow (tied to the real code by Hist cases:
+   several exports of the SAME flow object, each compared with the model run on a snapshot taken before the first) *)
+Theorem C48_exports_pure : forall v p a s fs,
+  snd (export_history v p a s fs) = s
+  /\ fst (export_history v p a s fs) = map (fun f => fst (export_step v p a s f)) fs.
+Proof. exact exports_pure. Qed.
+Print Assumptions C48_exports_pure.
+
 (* non-vacuity: a request with quotes, a command substitution and a control-character body is exported, executed
    as one curl command, and the body arrives unchanged *)
 Theorem C48_nonvacuous :
